@@ -419,7 +419,8 @@ BadSteps(x) ==
 Verdict(x) ==
     IF ~WellFormed(x)
     THEN [id |-> x.id, failed |-> {"bad_history"}, known |-> {},
-          explained |-> FALSE, bad |-> {}, applied |-> {}, isteps |-> 0]
+          explained |-> FALSE, bad |-> {}, applied |-> {}, isteps |-> 0,
+          per_step |-> {}]
     ELSE LET bad == BadSteps(x)
              I == {k \in 1..Len(x.steps) : IStep(x, k)}
          IN [id |-> x.id,
@@ -430,5 +431,10 @@ Verdict(x) ==
              bad |-> bad,
              applied |-> UNION {UNION {PointApplied(x, k, i) :
                                   i \in 1..Len(x.steps[k].pts)} : k \in I},
-             isteps |-> Cardinality(I)]
+             isteps |-> Cardinality(I),
+             \* per Interpolate step: the clauses that were not vacuous
+             per_step |-> {[k |-> k,
+                            applied |-> UNION {PointApplied(x, k, i) :
+                                          i \in 1..Len(x.steps[k].pts)}] :
+                              k \in I}]
 =============================================================================
